@@ -68,6 +68,16 @@ CHECKS = {
             'DESIGN.md §4 C07',
             'Trusted: nightly rustc MIR; std char::is_whitespace = Unicode White_Space. Not decided: tree equality for all separator assignments beyond the tokenizer clauses.',
             'must-pass-through / fusion rules over enumerated MIR paths of the character loop'),
+    'C15': ('proof',
+            'Type-level proof obligations discharged by rustc and by exhaustive walks: Send + Sync witnesses for the 8 public types (with a failing twin), unsafe_code forbidden and absent, no static / thread_local in the crate, no UnsafeCell and no Rc/Arc reachable from any of the 14 ADTs (type walk through std types), no body reaches process-global state except RandomState::new in HashMap::default, HashMap iteration order is never observed by evaluation. Together: data-race freedom and schedule-independent results of read-only evaluation. Zero-count rules are exercised on a fixture crate on every run.',
+            'DESIGN.md §4 C15',
+            'Trusted base: rustc trait solver, borrow checker and unsafe_code lint; std types are what their definitions say. User closures are Send + Sync by the bound on Function::new.',
+            'compile-pass/compile-fail witnesses + exhaustive type walk + reachability rule (proof by type system)'),
+    'C16': ('other',
+            'Clause level (serde feature configuration): Deserialize for Node is deserialize_str + build_operator_tree with the error text passed through E::custom; witnesses that Value / HashMapContext over the default numeric types are Serialize + DeserializeOwned and Node is DeserializeOwned; derived impls serialise exactly `variables` and the builtin switch and rebuild `functions` from Default. Wire formats / bit-exact float round trips are not decided.',
+            'DESIGN.md §4 C16',
+            'Trusted: serde_derive expansion, rustc. Not decided: behaviour of concrete data formats.',
+            'witness compilation + abstract interpretation of the visitor + derived-impl facts (serde configuration)'),
 }
 
 PENDING_REASON = 'check not yet built in this revision of the framework (design in DESIGN.md); not claimed until its rules run'
